@@ -79,7 +79,10 @@ def wid(worker): return "w" + str(WORKER_IDS.index(worker.id) + 1)
 def nid(node):
     if node.is_shared_root(): return ROOT
     return ids[cls_name(node)]
-def ev(w, a, x="-", y="-", **kw): LOG.append(dict({"w": w, "a": a, "x": x, "y": y, "u": 0, "s": "-"}, **kw))
+class Cap(Exception): pass
+def ev(w, a, x="-", y="-", **kw):
+    if len(LOG) > 20000: raise Cap()
+    LOG.append(dict({"w": w, "a": a, "x": x, "y": y, "u": 0, "s": "-"}, **kw))
 def wrap(cls, name, fn): setattr(cls, name, fn(getattr(cls, name)))
 wrap(TestNode, "pick_child", lambda o: lambda self, worker: (lambda r: (ev(wid(worker), "pickchild", nid(self), nid(r)), r)[1])(o(self, worker)))
 wrap(TestNode, "pick_parent", lambda o: lambda self, worker: (lambda r: (ev(wid(worker), "pickparent", nid(self), nid(r)), r)[1])(o(self, worker)))
@@ -158,7 +161,12 @@ env = Env2({k: set(v) for k, v in store.items()}, status=status, dur=lambda n, k
 run_params = {"test_timeout": 100}
 if MAXT != 1: run_params["max_tries"] = str(MAXT)
 if STOP: run_params["stop_status"] = STOP
-traverse(graph, env, run_params)
+try:
+    traverse(graph, env, run_params)
+except Cap:
+    pre = sum(1 for e in LOG[-3000:] if e["a"] == "prestart")
+    print(f"nets={NETS!r} seed={SEED} max_tries={MAXT} stop={STOP!r} NON-TERMINATION: >20000 events; prestart events among the last 3000: {pre}")
+    sys.exit(0)
 # post-process cready -> postpone / drop
 merged = []
 for e in LOG:
@@ -234,7 +242,7 @@ import shutil
 shutil.copy(os.path.join(os.path.dirname(os.path.abspath(__file__)), "TravGen2.tla"), OUT)
 r = subprocess.run(["tlc", "-workers", "1", "-metadir", f"{OUT}/meta", "-noGenerateSpecTE", "-config", "MCGen.cfg", "MCGen.tla"],
                    cwd=OUT, env=dict(os.environ, TRACE_FILE=f"{OUT}/trace.ndjson"), capture_output=True, text=True)
-shutil.rmtree(f"{OUT}/meta", ignore_errors=True)
+shutil.rmtree(f"{OUT}/meta", ignore_errors=True); open(f"{OUT}/tlc.out","w").write(r.stdout)
 out = r.stdout
 m = re.search(r"(\d+) states generated, (\d+) distinct states", out)
 depth = re.search(r"depth of the complete state graph search is (\d+)", out)
